@@ -48,6 +48,11 @@ type Op struct {
 	Rules []string `json:"rules,omitempty"`
 	On    bool     `json:"on,omitempty"`
 	Mode  string   `json:"mode,omitempty"`
+	// Ms: protection with On=false: duration of a timed pause (0 = until
+	// switched on again); advance: how far the clock moves; to_deadline:
+	// offset from the deadline of the running pause the clock is moved to
+	// (negative: just before it).
+	Ms int64 `json:"ms,omitempty"`
 }
 
 // Scenario is one case.
@@ -182,20 +187,45 @@ func Gen(t *rapid.T, tier string) any {
 	if tier == "thorough" {
 		maxOps = 60
 	}
+	pauseRuns := false
 	for i, n := 0, rapid.IntRange(3, maxOps).Draw(t, "n_ops"); i < n; i++ {
 		var op Op
-		switch k := rapid.IntRange(0, 99).Draw(t, "kind"); {
-		case k < 82:
+		k := rapid.IntRange(0, 99).Draw(t, "kind")
+		if l := len(sc.Ops); l > 0 && sc.Ops[l-1].Kind == "to_deadline" && rapid.IntRange(0, 3).Draw(t, "ask_first") != 0 {
+			k = 0 // a query first thing after the clock was moved to the deadline
+		} else if pauseRuns && rapid.IntRange(0, 3).Draw(t, "aim") == 0 {
+			k = 99 // a running pause: move the clock to its deadline soon
+		}
+		switch {
+		case k < 70:
 			op = Op{Kind: "query", Name: rapid.SampledFrom(qnames).Draw(t, "qname"), Qtype: rapid.SampledFrom(qts).Draw(t, "qtype"),
 				Addr: rapid.SampledFrom(addrs).Draw(t, "addr"), Proto: rapid.SampledFrom(protos).Draw(t, "proto")}
-		case k < 90:
+		case k < 77:
 			op = Op{Kind: "set_rules", Rules: genRules(t, false, 5)}
-		case k < 94:
+		case k < 83:
 			op = Op{Kind: "protection", On: rapid.Bool().Draw(t, "prot_on")}
-		case k < 97:
+			if !op.On && rapid.IntRange(0, 2).Draw(t, "prot_timed") != 0 {
+				op.Ms = int64(rapid.SampledFrom([]int{1000, 30_000, 600_000}).Draw(t, "prot_ms"))
+			}
+			pauseRuns = op.Ms > 0
+		case k < 86:
 			op = Op{Kind: "mode", Mode: rapid.SampledFrom(modes).Draw(t, "new_mode")}
-		default:
+		case k < 88:
 			op = Op{Kind: "aaaa_disabled", On: rapid.Bool().Draw(t, "aaaa_on")}
+		case k < 91:
+			op = Op{Kind: "advance", Ms: int64(rapid.SampledFrom([]int{1, 999, 1000, 29_000, 31_000, 600_000, 3_600_000}).Draw(t, "adv_ms"))}
+		case !pauseRuns:
+			// (The generator follows the pauses it has drawn so that the next
+			// operation of this slot can aim at the deadline.)
+			op = Op{Kind: "protection", Ms: int64(rapid.SampledFrom([]int{1000, 30_000, 600_000}).Draw(t, "prot_ms"))}
+			pauseRuns = true
+		default:
+			// Aim at the deadline of the running pause: just before it,
+			// exactly at it, past it.
+			op = Op{Kind: "to_deadline", Ms: int64(rapid.SampledFrom([]int{0, 1, -1, 2, 1000, -1000}).Draw(t, "deadline_off"))}
+			if op.Ms >= 0 {
+				pauseRuns = false
+			}
 		}
 		sc.Ops = append(sc.Ops, op)
 	}
@@ -246,11 +276,16 @@ func buildRR(owner string, qtype uint16, r RR) dns.RR {
 }
 
 type runner struct {
-	sc      *Scenario
-	c       *kernel.Ctx
-	n       *dnsnode.Node
-	bc      model.BlockConf
-	prot    bool
+	sc   *Scenario
+	c    *kernel.Ctx
+	n    *dnsnode.Node
+	bc   model.BlockConf
+	prot bool
+	// pausedTill is the deadline of a timed protection pause (zero: none).
+	pausedTill time.Time
+	// crossed is set when the clock has passed the deadline of a pause and no
+	// query has been asked since.
+	crossed bool
 	aaaaOff bool
 	user    []string
 	eng     *model.Engines
@@ -277,6 +312,27 @@ func (r *runner) answer(req *dns.Msg) *dns.Msg {
 		m.Answer = append(m.Answer, buildRR(name, q.Qtype, rr))
 	}
 	return m
+}
+
+// protAt is the protection state at the given instant: a timed pause lasts
+// until its deadline, then protection is on again.
+func (r *runner) protAt(now time.Time) bool {
+	if !r.pausedTill.IsZero() {
+		return !now.Before(r.pausedTill)
+	}
+	return r.prot
+}
+
+// sleep moves the simulated clock.
+func (r *runner) sleep(d time.Duration) {
+	before := time.Now()
+	time.Sleep(d)
+	r.c.SimTime += d
+	r.c.Fault("clock_advance")
+	if !r.pausedTill.IsZero() && before.Before(r.pausedTill) && !time.Now().Before(r.pausedTill) {
+		r.c.Probe("pause_deadline_crossed")
+		r.crossed = true
+	}
 }
 
 func (r *runner) api(method, path string, body any) error {
@@ -354,8 +410,17 @@ func (r *runner) query(op Op) error {
 		clientName, clientFilt = "nofilter", false
 	}
 	logBefore := r.n.QLog.Len()
+	start := time.Now()
+	prot := r.protAt(start)
 	rep := r.n.Do(&dnsnode.Query{Proto: op.Proto, Addr: netip.AddrPortFrom(addr, 40000), Name: name, Qtype: op.Qtype})
+	end := time.Now()
+	r.c.SimTime += end.Sub(start)
 	kernel.Wait()
+	first := r.crossed
+	r.crossed = false
+	if !r.pausedTill.IsZero() && start.Before(r.pausedTill) && !end.Before(r.pausedTill) {
+		r.c.Probe("pause_deadline_crossed")
+	}
 	if rep.WireErr != nil {
 		return kernel.Violationf("malformed-reply", "%s %s over %s: %v", name, dns.Type(op.Qtype), op.Proto, rep.WireErr)
 	}
@@ -365,8 +430,20 @@ func (r *runner) query(op Op) error {
 		r.c.Probe("aaaa_disabled_query")
 		return nil // answered locally before any filtering (C01 checks that)
 	}
+	if prot != r.protAt(end) {
+		// The pause ended while the query was in flight: the statement does not
+		// say which state applies to it.
+		r.c.Probe("query_straddles_deadline")
+		return nil
+	}
+	if first && prot {
+		r.c.Probe("first_query_after_pause")
+	}
+	if !r.pausedTill.IsZero() && !prot {
+		r.c.Probe("query_during_pause")
+	}
 	reqStage := model.Match{}
-	if r.prot && clientFilt {
+	if prot && clientFilt {
 		reqStage = r.eng.Check(name, op.Qtype, addr, clientName)
 	}
 	if reqStage.Verdict == model.Blocked {
@@ -384,7 +461,7 @@ func (r *runner) query(op Op) error {
 	for _, rr := range zone {
 		upAns = append(upAns, buildRR(name, op.Qtype, rr))
 	}
-	applicable := r.prot && clientFilt && reqStage.Verdict != model.Allowed
+	applicable := prot && clientFilt && reqStage.Verdict != model.Allowed
 	idx := -1
 	what := ""
 	if applicable {
@@ -395,7 +472,7 @@ func (r *runner) query(op Op) error {
 		}
 	} else {
 		switch {
-		case !r.prot:
+		case !prot:
 			r.c.Probe("protection_off_query")
 		case !clientFilt:
 			r.c.Probe("filtering_off_query")
@@ -405,6 +482,9 @@ func (r *runner) query(op Op) error {
 	}
 	if idx >= 0 {
 		r.c.Probe("blocked_by_response")
+		if first {
+			r.c.Probe("blocked_first_after_pause")
+		}
 		r.c.Probe("offender_" + zone[idx].T)
 		if idx > 0 {
 			r.c.Probe("offender_not_first")
@@ -451,7 +531,7 @@ func (r *runner) query(op Op) error {
 				return nil
 			}
 		}
-		return kernel.Violationf("answer-changed", "%s %s from %s (protection=%v filtering=%v qname verdict=%s): no record of the upstream answer is blocked, yet the client did not receive it unchanged\nupstream: %v\nclient:   %v (rcode %s)", name, dns.Type(op.Qtype), op.Addr, r.prot, clientFilt, reqStage.Verdict, want, got, dns.RcodeToString[rep.Msg.Rcode])
+		return kernel.Violationf("answer-changed", "%s %s from %s (protection=%v filtering=%v qname verdict=%s): no record of the upstream answer is blocked, yet the client did not receive it unchanged\nupstream: %v\nclient:   %v (rcode %s)", name, dns.Type(op.Qtype), op.Addr, prot, clientFilt, reqStage.Verdict, want, got, dns.RcodeToString[rep.Msg.Rcode])
 	}
 	if rep.Msg.Rcode != wantRcode {
 		return kernel.Violationf("answer-changed", "%s %s: upstream %s became %s", name, dns.Type(op.Qtype), dns.RcodeToString[wantRcode], dns.RcodeToString[rep.Msg.Rcode])
@@ -479,11 +559,30 @@ func (r *runner) apply(op Op) error {
 		r.c.Fault("live_rule_change")
 		return r.rebuild()
 	case "protection":
-		if err := r.api("POST", "/control/protection", map[string]any{"enabled": op.On}); err != nil {
+		body := map[string]any{"enabled": op.On}
+		if op.Ms > 0 {
+			body["duration"] = op.Ms
+		}
+		if err := r.api("POST", "/control/protection", body); err != nil {
 			return err
 		}
 		r.prot = op.On
+		r.pausedTill = time.Time{}
+		r.crossed = false
+		if !op.On && op.Ms > 0 {
+			r.pausedTill = time.Now().Add(time.Duration(op.Ms) * time.Millisecond)
+			r.c.Fault("protection_pause")
+		}
 		r.c.Fault("live_flag_change")
+	case "advance":
+		r.sleep(time.Duration(op.Ms) * time.Millisecond)
+	case "to_deadline":
+		d := r.pausedTill.Add(time.Duration(op.Ms) * time.Millisecond).Sub(time.Now())
+		if r.pausedTill.IsZero() || !time.Now().Before(r.pausedTill) || d <= 0 {
+			r.c.Probe("op_skipped_no_pause")
+			return nil
+		}
+		r.sleep(d)
 	case "mode":
 		body := map[string]any{"blocking_mode": op.Mode}
 		if op.Mode == "custom_ip" {
@@ -558,7 +657,7 @@ func Run(t *testing.T, scAny any, c *kernel.Ctx) error {
 var Prop = &kernel.Property{
 	ID:    "C02",
 	Level: "exploration",
-	Rule: "seeded cases (rapid): a zone of upstream answer sections (CNAME chains 0-3, 0-3 A/AAAA, HTTPS records with ipv4hint/ipv6hint, unrelated TXT/MX/NS, randomly permuted) served by the simulated upstream; rules over CNAME targets, IP literals and query names in custom rules, a block list and an allow list (||, |, @@, $important, $dnstype, $client, hosts-style); queries of 4 types over 6 transports from 3 sources interleaved with live set_rules / protection / blocking-mode / AAAA-disabled changes; " +
+	Rule: "seeded cases (rapid): a zone of upstream answer sections (CNAME chains 0-3, 0-3 A/AAAA, HTTPS records with ipv4hint/ipv6hint, unrelated TXT/MX/NS, randomly permuted) served by the simulated upstream; rules over CNAME targets, IP literals and query names in custom rules, a block list and an allow list (||, |, @@, $important, $dnstype, $client, hosts-style); queries of 4 types over 6 transports from 3 sources interleaved with live set_rules / protection on, off and timed pause / blocking-mode / AAAA-disabled changes and clock movements (fixed steps; to just before, exactly at and past the deadline of the running pause); " +
 		"non-trivial = the reference model found at least one answer that must be replaced AND one that must be delivered unchanged; distinct = distinct scenario digests",
 	Gen: Gen,
 	New: func() any { return &Scenario{} },
@@ -569,6 +668,6 @@ var Prop = &kernel.Property{
 	Real:        []string{"internal/dnsforward (pipeline, filterDNSResponse, HTTPS hint filtering, blocking-mode responses)", "internal/filtering (CheckHostRules, engines)", "dnsproxy request path incl. cache", "internal/client.Storage", "urlfilter"},
 	Stub:        []string{"upstream resolver (answer sections from the scenario's zone)", "client sockets", "query log / statistics (recorders)", "wall clock (synctest)"},
 	Assumptions: []string{"urlfilter's matching of one rule set against one host name / IP literal is trusted", "CNAME targets are matched as type CNAME, addresses as A/AAAA, hints as HTTPS for $dnstype purposes (documented behaviour of response filtering)"},
-	FaultKinds:  []string{"live_rule_change", "live_flag_change"},
-	ProbeNames:  []string{"blocked_by_response", "delivered_unchanged", "offender_CNAME", "offender_A", "offender_AAAA", "offender_HTTPS", "offender_not_first", "record_allowlisted", "protection_off_query", "filtering_off_query", "qname_allowlisted_query", "blocked_at_request_stage", "aaaa_disabled_query", "ipv6_hints_stripped", "negative_upstream_answer"},
+	FaultKinds:  []string{"live_rule_change", "live_flag_change", "protection_pause", "clock_advance"},
+	ProbeNames:  []string{"blocked_by_response", "delivered_unchanged", "offender_CNAME", "offender_A", "offender_AAAA", "offender_HTTPS", "offender_not_first", "record_allowlisted", "protection_off_query", "filtering_off_query", "qname_allowlisted_query", "blocked_at_request_stage", "aaaa_disabled_query", "ipv6_hints_stripped", "negative_upstream_answer", "pause_deadline_crossed", "first_query_after_pause", "blocked_first_after_pause", "query_during_pause", "query_straddles_deadline", "op_skipped_no_pause"},
 }
